@@ -135,7 +135,7 @@ def _judge_special(rng, tag):
     # ESN node (with and without feedback)
     for fb in (False, True):
         def mk(t):
-            kw = dict(units=3, W=W.copy(), Win=Win.copy(), lr=0.5, seed=5, feedback=fb, name="esn%s_%s_%d" % (tag, t, fb))
+            kw = dict(units=3, W=W.copy(), Win=Win.copy(), lr=0.5, seed=5, ridge=0.125, feedback=fb, name="esn%s_%s_%d" % (tag, t, fb))
             if fb:
                 kw["Wfb"] = scen.fl(scengen.mat(core.random.Random(tag), 3, 1, 2, 1))
             return ESN(**kw)
@@ -150,7 +150,7 @@ def _judge_special(rng, tag):
                              {"tag": tag, "kind": "esn", "fb": fb, "cut": cut}, oa.tolist(), ob.tolist()))
     # ESN resumed from saved states: run(X[:k]); save states; reset; run(X[k:], from_state=saved) == tail of the whole run
     for fb in (False, True):
-        kw = dict(units=3, W=W.copy(), Win=Win.copy(), lr=0.5, seed=5, feedback=fb)
+        kw = dict(units=3, W=W.copy(), Win=Win.copy(), lr=0.5, seed=5, ridge=0.125, feedback=fb)
         if fb:
             kw["Wfb"] = scen.fl(scengen.mat(core.random.Random(tag), 3, 1, 2, 1))
         ea = ESN(name="esnfs%s_a%d" % (tag, fb), **kw); eb = ESN(name="esnfs%s_b%d" % (tag, fb), **kw)
